@@ -32,7 +32,7 @@ Stmt(t) ==
       [] t = "C10" -> [k |-> "assign", n |-> "c", e |-> N(16)] [] t = "C1234" -> [k |-> "assign", n |-> "c", e |-> N(4660)]
       [] t = "Ec1234" -> [k |-> "sym", n |-> "c", e |-> N(4660)]
       [] t = "Ec5" -> [k |-> "sym", n |-> "c", e |-> N(5)] [] t = "Eca" -> [k |-> "sym", n |-> "c", e |-> I("a")]
-      [] t = "Ea7" -> [k |-> "sym", n |-> "a", e |-> N(7)]
+      [] t = "Ea7" -> [k |-> "sym", n |-> "a", e |-> N(7)] [] t = "Ei7" -> [k |-> "sym", n |-> "i", e |-> N(7)]
       [] t = "S1" -> Star(32768) [] t = "S2" -> Star(32770) [] t = "S3" -> Star(98304) [] t = "S4" -> Star(65534)
       [] t = "S5" -> Star(98306)
       [] t = "A1" -> At(98304) [] t = "A2" -> At(8257536) [] t = "A3" -> At(32770) [] t = "A4" -> At(8323070)
@@ -65,6 +65,10 @@ AlphaSeq ==
       [] Family = "loopscope" -> <<"FOR02{", "N{", "}", "La", "DLna", "DLa", "DB">>
       [] Family = "shadowdata" -> <<"C10", "Lc", "Ec5", "DLc", "{", "}", "DB", "N{">>
       [] Family = "shadowloop" -> <<"Lc", "LDc", "C10", "FOR02{", "}", "DLc", "DB", "La">>
+      \* the loop variable is visible in the loop body only (and shadows an outer i there)
+      [] Family = "loopleak" -> <<"FOR02{", "}", "DBi", "Ei7", "{", "DB">>
+      \* a deferred (forward-label) argument is evaluated at the call site, not inside the application
+      [] Family = "deferarg" -> <<"M1{", "}", "DLp", "La", "AP1a", "{", "DB">>
       [] Family = "tiny"   -> <<"La", "DB", "DLa", "{", "}", "S3">>
 Alphabet == Range(AlphaSeq)
 TokIndex(t) == CHOOSE j \in 1..Len(AlphaSeq) : AlphaSeq[j] = t
@@ -108,7 +112,7 @@ OpenStack(q, p, stk) == IF p > Len(q) THEN stk
 ElseAllowed(q) == LET stk == OpenStack(q, 1, <<>>) IN stk # <<>> /\ stk[Len(stk)] = "if"
 
 \* the name a token defines in the scope it stands in ("" if none)
-DefName(t) == CASE t \in {"La", "Ea7", "A5"} -> "a" [] t = "Lb" -> "b"
+DefName(t) == CASE t \in {"La", "Ea7", "A5"} -> "a" [] t = "Lb" -> "b" [] t = "Ei7" -> "i"
                 [] t \in {"Lc", "C10", "C1234", "C3", "Ec5", "Eca", "Ec1234"} -> "c" [] OTHER -> ""
 \* names defined so far in each open scope (a stack); re-definition in one scope is outside the statements,
 \* so such token strings are not extended (they would all be `unspec`)
